@@ -55,11 +55,13 @@ EXC_PARENTS = {"ValueError": ("ValueError", "Exception", "BaseException"),
 
 
 class Interp(object):
-    def __init__(self, func_node, module_env=None, builtins=None, max_steps=4000, module_funcs=None):
+    def __init__(self, func_node, module_env=None, builtins=None, max_steps=4000, module_funcs=None, module_assigns=None):
         self.fn = func_node
         self.module_env = module_env or {}
         self.builtins = builtins or {}
         self.module_funcs = module_funcs or {}      # name -> FunctionDef of the same module (private helpers are interpreted too)
+        self.module_assigns = module_assigns or {}  # name -> value AST of a module level assignment (evaluated on first use)
+        self._module_busy = set()
         self.steps = 0
         self.max_steps = max_steps
 
@@ -191,6 +193,17 @@ class Interp(object):
                 return self.module_env[e.id]
             if e.id in self.module_funcs:
                 return ("func", e.id)
+            if e.id in self.module_assigns and e.id not in self._module_busy:
+                # a module level constant (message text, operator.itemgetter(..), functools.partial(..)): evaluated in module scope
+                self._module_busy.add(e.id)
+                try:
+                    v = self.expr(self.module_assigns[e.id], {})
+                finally:
+                    self._module_busy.discard(e.id)
+                self.module_env[e.id] = v
+                return v
+            if e.id in ("itemgetter", "attrgetter", "partial"):
+                return ("builtin", e.id)
             if e.id in ("True", "False", "None"):
                 return {"True": True, "False": False, "None": None}[e.id]
             if e.id in TYPE_NAMES or e.id in self.builtins or e.id in ("len", "isinstance", "str", "int", "getattr", "any", "all",
@@ -250,6 +263,9 @@ class Interp(object):
             except IndexError:
                 raise Raised("IndexError")
         if isinstance(e, ast.Attribute):
+            if isinstance(e.value, ast.Name) and e.value.id in ("operator", "functools") and e.attr in ("itemgetter", "attrgetter", "partial") \
+                    and e.value.id not in env:
+                return ("builtin", e.attr)
             base = self.expr(e.value, env)
             if isinstance(base, Opaque):
                 if e.attr in base.fields:
@@ -265,6 +281,8 @@ class Interp(object):
             return self.call_expr(e, env)
         if isinstance(e, ast.JoinedStr):
             return Opaque("fstring")
+        if isinstance(e, ast.Lambda):
+            return ("lambda", e, dict(env))
         if isinstance(e, (ast.ListComp, ast.GeneratorExp)):
             # evaluated eagerly over concrete sequences (the functions interpreted here consume what they build)
             out = []
@@ -286,6 +304,40 @@ class Interp(object):
             gen(0, dict(env))
             return out
         raise Undecided("expression %s" % type(e).__name__)
+
+    def _apply(self, f, args, kwargs, e=None):
+        """call of an interpreted module function / a partial of one"""
+        if isinstance(f, tuple) and f and f[0] == "partial":
+            _, inner, pargs, pkw = f
+            kw2 = dict(pkw)
+            kw2.update(kwargs)
+            return self._apply(inner, list(pargs) + list(args), kw2, e)
+        if isinstance(f, tuple) and f and f[0] == "lambda":
+            _, lam, cenv = f
+            a = lam.args
+            if a.vararg or a.kwarg or a.kwonlyargs or kwargs:
+                raise Undecided("lambda with keyword / star parameters")
+            names = [x.arg for x in a.posonlyargs + a.args]
+            env2 = dict(cenv)
+            for p0, d in zip(names[len(names) - len(a.defaults):], a.defaults):
+                env2[p0] = self.expr(d, cenv)
+            if len(args) > len(names):
+                raise Raised("TypeError", "lambda arguments")
+            for p0, v in zip(names, args):
+                env2[p0] = v
+            if any(p0 not in env2 for p0 in names):
+                raise Raised("TypeError", "lambda arguments")
+            return self.expr(lam.body, env2)
+        if isinstance(f, tuple) and f and f[0] == "func":
+            sub = Interp(self.module_funcs[f[1]], self.module_env, self.builtins, self.max_steps, self.module_funcs, self.module_assigns)
+            sub.steps = self.steps
+            try:
+                return sub.call(*args, **dict(kwargs))
+            finally:
+                self.steps = sub.steps
+        if isinstance(f, tuple) and f and f[0] == "builtin" and f[1] in self.builtins:
+            return self.builtins[f[1]](self, *args, **dict(kwargs))
+        raise Undecided("call of %r" % (f,))
 
     def compare(self, op, a, b):
         if isinstance(op, ast.Is):
@@ -350,10 +402,34 @@ class Interp(object):
             except TypeError:
                 raise Raised("TypeError")
             return r
+        if isinstance(f, tuple) and f and f[0] == "lambda":
+            return self._apply(f, args, kwargs, e)
+        if isinstance(f, tuple) and f and f[0] == "itemgetter":
+            (x,) = args
+            if not isinstance(x, (tuple, list, str)) or isinstance(x, ListOfLen):
+                raise Undecided("itemgetter of %r" % (x,))
+            try:
+                vals = [x[i] for i in f[1]]
+            except IndexError:
+                raise Raised("IndexError")
+            return vals[0] if len(vals) == 1 else tuple(vals)
+        if isinstance(f, tuple) and f and f[0] == "partial":
+            _, inner, pargs, pkw = f
+            kw2 = dict(pkw)
+            kw2.update(kwargs)
+            return self._apply(inner, list(pargs) + args, kw2, e)
         if isinstance(f, tuple) and f and f[0] == "builtin":
             name = f[1]
             if name in self.builtins:
                 return self.builtins[name](self, *args, **kwargs)
+            if name == "itemgetter":
+                if not args or not all(isinstance(a, int) for a in args):
+                    raise Undecided("itemgetter(%r)" % (args,))
+                return ("itemgetter", tuple(args))
+            if name == "partial":
+                if not args:
+                    raise Undecided("partial()")
+                return ("partial", args[0], tuple(args[1:]), tuple(sorted(kwargs.items())))
             if name == "isinstance":
                 obj, t = args
                 is_marker = lambda x: isinstance(x, tuple) and len(x) == 2 and x[0] == "builtin"
@@ -408,12 +484,7 @@ class Interp(object):
                 raise Undecided("%s(%r)" % (name, x))
             raise Undecided("builtin %s" % name)
         if isinstance(f, tuple) and f and f[0] == "func":
-            sub = Interp(self.module_funcs[f[1]], self.module_env, self.builtins, self.max_steps, self.module_funcs)
-            sub.steps = self.steps
-            try:
-                return sub.call(*args, **kwargs)
-            finally:
-                self.steps = sub.steps
+            return self._apply(f, args, kwargs, e)
         if isinstance(f, Opaque):
             return Opaque("%s()" % f.label)
         raise Undecided("call of %s" % unparse(e.func))
